@@ -21,7 +21,7 @@ META = dict(
               "TLC finds is replayed on a real ClusterAdmin against three scripted MockBrokers; TLC evaluates the same clauses "
               "on the recorded requests and return values (spec/AdminTrace.tla)",
     text="TLC enumerates, for CreateTopic/DeleteTopic/CreatePartitions/AlterPartitionReassignments, every Admin.Retry.Max in 0..3, "
-         "every initial controller and every script of per-attempt broker behaviour (acknowledge, NOT_CONTROLLER with the controller "
+         "every initial controller among broker ids {0,1,2} (id 0 is an ordinary broker) and every script of per-attempt broker behaviour (acknowledge, NOT_CONTROLLER with the controller "
          "moving to either other broker, every KError code in place of success, answer without the topic entry, dropped connection; "
          "0..Max+1 controller moves) for every Kafka release that changes the request version; and for DeleteRecords/"
          "DescribeConsumerGroups/ListConsumerGroupOffsets/DeleteConsumerGroup every spread of 3 partitions/groups over 3 brokers with "
@@ -31,8 +31,9 @@ META = dict(
          "returned with the broker's code, request version supported by the configured release).",
     note="bounded: 3 brokers, Retry.Max <= 3, 3 items; metadata and coordinator look-ups always succeed and tell the truth; "
          "retrying after a dropped connection is tolerated (the statement's 'other error' is read as an error answer); "
-         "three genuine defects of the pinned tree are known findings (Retry.Max=0 reports success without sending; "
-         "AlterPartitionReassignments never retries NOT_CONTROLLER and treats top-level UNKNOWN(-1) as success); MockBroker, harness and TLC trusted",
+         "the three defects this check found on the pinned tree (Retry.Max=0 reported success without sending; "
+         "AlterPartitionReassignments never retried NOT_CONTROLLER and treated top-level UNKNOWN(-1) as success) are fixed in /repo "
+         "(known_findings F-C19-*, status fixed; a regression is a fresh violation); MockBroker, harness and TLC trusted",
     design_ref="6/C19",
 )
 
@@ -46,9 +47,9 @@ def gen(ctx):
     emits every complete behaviour as a case. Returns (cases, stats)."""
     thorough = ctx.tier == "thorough"
     runs = [
-        ("Admin", "Admin.pinned.thorough.cfg" if thorough else "Admin.pinned.cfg", "pinned", False),
-        ("Admin", "Admin.repaired.cfg", "repaired", False),
+        ("Admin", "Admin.ref.thorough.cfg" if thorough else "Admin.ref.cfg", "ref", False),
         ("Admin", "Admin.codes.cfg", "codes", False),
+        ("Admin", "Admin.legacy.cfg", "legacy", False),
         ("AdminSpread", "AdminSpread.thorough.cfg" if thorough else "AdminSpread.cfg", "spread", False),
         ("Admin", "Admin.norefresh.cfg", "norefresh", True),
     ]
@@ -132,6 +133,8 @@ def run(ctx):
         nops += st[0]["ops"]
         nreq += st[0]["reqs"]
         drift += st[0]["drift"]
+    if drift:
+        ctx.say("DRIFT spec=Admin traces=%d (the real code did not do what the reference model predicts; soft, not a verdict)" % drift)
     if nops != executed:
         raise vlib.Inconclusive("trace validation evaluated %d operations, harness recorded %d" % (nops, executed))
 
@@ -159,14 +162,15 @@ def run(ctx):
         "cases_by_operation": fams,
         "admin_requests_observed": nreq,
         "drift_traces": drift,
-        "drift_note": "controller-bound operations (cases emitted by the pinned variants of spec/Admin.tla) on which the real code did not "
+        "drift_note": "controller-bound operations (cases emitted by the reference variants of spec/Admin.tla) on which the real code did not "
                       "do what the implementation-shaped model predicted (attempt count, result class, code); soft, never a verdict",
-        "explanation": "every complete behaviour of spec/Admin.tla (pinned variant: all scripts for Retry.Max 0..3; repaired variant: "
-                       "scripts one attempt beyond the budget; codes variant: every KError code) and every initial state of "
+        "explanation": "every complete behaviour of spec/Admin.tla (reference variant = admin.go as it is: all scripts of up to Max+1 answers for "
+                       "Retry.Max 0..3, broker ids {0,1,2}; codes variant: every KError code; legacy variant: the machine with the fixed defects, "
+                       "scripts stopping at the old budget) and every initial state of "
                        "spec/AdminSpread.tla is one execution of the real ClusterAdmin against three scripted MockBrokers; "
                        "TLC (spec/AdminTrace.tla) evaluates the AdminOracle clauses on the recorded requests and return values; "
-                       "the same clauses are invariants of the models (checked exhaustively, modulo the three known quirks, and on the "
-                       "repaired variant without exception; a mutant model without controller refresh is rejected)",
+                       "the same clauses are invariants of the models (checked exhaustively: on the reference variant without exception, on the "
+                       "legacy variant modulo the three fixed causes; a mutant model without controller refresh is rejected)",
     }
     return vlib.finish(ctx, "model_checking", cov, viols,
                        ["metadata and FindCoordinator look-ups succeed and report the true controller / leaders / coordinators",
